@@ -252,3 +252,213 @@ def stage_rest(spec, caches, outdir, max_workers, is_root, ops=None):
         res["io_cf"] = summarize(back)
         res["io_cf_equal"] = bool(back == cfs[0]) if is_root else None
     return res
+
+
+# ------------------------------------------------------------------------------------------
+# documented refusals (error paths): requests that a single-process run rejects by raising.
+# Under MPI every rank must return from such a request (normally: by raising), the root with the
+# single-process outcome, and a valid collective operation issued afterwards in the same world
+# must still give the single-process result.
+#   group A: decided by every rank on replicated arguments / replicated catalog metadata
+#   group B: detected by one rank only (the root that reads the input, the writer rank that opens
+#            the cache) while the other ranks are already waiting for it
+#   group C: raised by the job function on a worker rank inside parallel.iter_unordered
+#   group M: refused only under MPI (catalog creation needs two ranks); nothing to compare with
+# ------------------------------------------------------------------------------------------
+REFUSALS = {
+    # class: (group, entry point, creation pipeline involved (needs max_workers != 1 under MPI))
+    "random-probe-exceeds-records": ("A", "Catalog.from_random(patch_num=, probe larger than num_randoms)", True),
+    "create-empty-centre": ("A", "Catalog.from_dataframe(patch_centers with a centre that gets no record)", True),
+    "create-no-patch-method": ("A", "Catalog.from_dataframe without patch_centers/patch_name/patch_num", True),
+    "create-patch-num-range": ("A", "Catalog.from_dataframe(patch_num beyond the int16 patch id range)", True),
+    "create-patch-centers-type": ("A", "Catalog.from_dataframe(patch_centers=<plain list>)", True),
+    "create-file-extension": ("A", "Catalog.from_file(path with an unknown extension)", True),
+    "load-cache-missing": ("A", "Catalog(cache directory that does not exist)", False),
+    "cross-no-randoms": ("A", "yaw.crosscorrelate without ref_rand and unk_rand", False),
+    "cross-patch-ids-differ": ("A", "yaw.crosscorrelate with catalogs of different patch ids", False),
+    "auto-patch-ids-differ": ("A", "yaw.autocorrelate with catalogs of different patch ids", False),
+    "auto-centres-misaligned": ("A", "yaw.autocorrelate with randoms whose patch centres are shifted", False),
+    "cross-centres-misaligned": ("A", "yaw.crosscorrelate with ref_rand whose patch centres are shifted", False),
+    "create-mpi-single-worker": ("M", "Catalog.from_dataframe(max_workers=1) on an MPI world", False),
+    "create-cache-exists": ("B", "Catalog.from_dataframe(existing cache, overwrite=False)", True),
+    "create-overwrite-non-cache": ("B", "Catalog.from_dataframe(existing non-cache directory, overwrite=True)", True),
+    "create-nonfinite-value": ("B", "Catalog.from_dataframe(column with NaN/inf)", True),
+    "create-missing-column": ("B", "Catalog.from_dataframe(column name that is not in the frame)", True),
+    "create-patch-id-range": ("B", "Catalog.from_dataframe(patch_name column with an id outside [0, 32767])", True),
+    "create-input-file-missing": ("B", "Catalog.from_file(input file that does not exist)", True),
+    "load-no-patch-info": ("B", "Catalog(directory without patch_ids.bin)", False),
+    "io-corrfunc-file-missing": ("B", "CorrFunc.from_file(missing file)", False),
+    "io-hist-files-missing": ("B", "HistData.from_files(missing files)", False),
+    "trees-no-redshifts": ("C", "Catalog.build_trees(binning) on a catalog without redshifts", False),
+    "auto-no-redshifts": ("C", "yaw.autocorrelate with a data catalog without redshifts", False),
+    "cross-no-redshifts": ("C", "yaw.crosscorrelate with a reference catalog without redshifts", False),
+    "hist-no-redshifts": ("C", "HistData.from_catalog on a catalog without redshifts", False),
+}
+EXTRA_CATS = ("noz", "ids", "shift")
+FAR_CENTRE = (200.0, 60.0)
+
+
+def create_extra(spec, cache, max_workers, which):
+    """further (valid) catalogs that the refusal scenarios combine with the regular ones:
+    noz = the data sample without redshifts, ids = one patch more than the others,
+    shift = a random sample displaced (points and centres) by more than half a patch radius"""
+    from yaw import Catalog
+    from yaw.coordinates import AngularCoordinates
+    if which == "noz":
+        cols = make_columns(spec, "data")
+        del cols["z"]
+        kw = create_kwargs(spec)
+        kw.pop("redshift_name")
+    elif which == "ids":
+        spec2 = dict(spec, ncent=spec["ncent"] + 1)
+        cols = make_columns(spec2, "unk")
+        kw = create_kwargs(spec2)
+    else:
+        cols = make_columns(spec, "rand")
+        cols["ra"] = cols["ra"] + 1.25     # the patch centre is recomputed from the records when the metadata is rebuilt
+        kw = create_kwargs(dict(spec, mode="centers"))
+        cent = [(c[0] + 1.25, c[1]) for c in centers(spec)]
+        kw["patch_centers"] = AngularCoordinates(np.deg2rad(np.asarray(cent, dtype="f8")))
+    Catalog.from_dataframe(cache, make_df(cols), chunksize=spec["cs"], max_workers=max_workers, overwrite=True, **kw)
+
+
+def prepare_refusal_dir(d):
+    """the part of a scenario's scratch directory that exists before the request (made by the
+    harness, outside the world)"""
+    shutil.rmtree(d, ignore_errors=True)
+    os.makedirs(os.path.join(d, "plain"))
+    with open(os.path.join(d, "plain", "keep.txt"), "w") as fh:
+        fh.write("not a catalog cache\n")
+    os.makedirs(os.path.join(d, "nocache"))
+    os.makedirs(os.path.join(d, "out"))
+
+
+def refusal_call(cls, spec, env, par, max_workers):
+    """issue the request of refusal class `cls` (all ranks call this); env = dict(dir, caches, extra)"""
+    import yaw
+    from yaw import Catalog, CorrFunc, HistData
+    from yaw.coordinates import AngularCoordinates
+    d = env["dir"]
+    new = os.path.join(d, "new")
+    mw = max_workers
+    caches = dict(env["caches"], **env.get("extra", {}))
+
+    def cat(name):
+        return Catalog(caches[name], max_workers=mw)
+
+    def df_create(cols, kw, cache=new, overwrite=True, workers=mw):
+        return Catalog.from_dataframe(cache, make_df(cols), chunksize=spec["cs"], max_workers=workers,
+                                      overwrite=overwrite, **kw)
+
+    cent_kw = create_kwargs(dict(spec, mode="centers"))
+    if cls == "random-probe-exceeds-records":
+        from yaw.randoms import BoxRandoms
+        gen = BoxRandoms(18.0, 32.0, -8.0, 0.0, seed=par["seed"])
+        kw = {} if par.get("probe") is None else {"probe_size": par["probe"]}
+        return Catalog.from_random(new, gen, par["n"], patch_num=par["patch_num"], chunksize=par.get("cs"),
+                                   max_workers=mw, **kw)
+    if cls == "create-empty-centre":
+        cent = list(centers(spec))
+        cent.insert(par["pos"] % (len(cent) + 1), FAR_CENTRE)
+        kw = dict(cent_kw, patch_centers=AngularCoordinates(np.deg2rad(np.asarray(cent, dtype="f8"))))
+        return df_create(make_columns(spec, "data"), kw)
+    if cls == "create-no-patch-method":
+        kw = dict(cent_kw)
+        kw.pop("patch_centers")
+        return df_create(make_columns(spec, "data"), kw)
+    if cls == "create-patch-num-range":
+        kw = dict(cent_kw, patch_num=par["patch_num"])
+        kw.pop("patch_centers")
+        return df_create(make_columns(spec, "data"), kw)
+    if cls == "create-patch-centers-type":
+        return df_create(make_columns(spec, "data"), dict(cent_kw, patch_centers=[list(c) for c in centers(spec)]))
+    if cls == "create-file-extension":
+        return Catalog.from_file(new, os.path.join(d, "input." + par["ext"]), ra_name="ra", dec_name="dec",
+                                 patch_num=3, max_workers=mw)
+    if cls == "load-cache-missing":
+        return Catalog(os.path.join(d, "absent"), max_workers=mw)
+    if cls == "cross-no-randoms":
+        return yaw.crosscorrelate(make_config(spec), cat("data"), cat("unk"), max_workers=mw)
+    if cls == "cross-patch-ids-differ":
+        args = dict(unknown="unk", ref_rand="rand", unk_rand="urand")
+        args[par["which"]] = "ids"
+        return yaw.crosscorrelate(make_config(spec), cat("data"), cat(args["unknown"]), ref_rand=cat(args["ref_rand"]),
+                                  unk_rand=cat(args["unk_rand"]), max_workers=mw)
+    if cls == "auto-patch-ids-differ":
+        a, b = ("ids", "rand") if par["which"] == "data" else ("data", "ids")
+        return yaw.autocorrelate(make_config(spec), cat(a), cat(b), max_workers=mw)
+    if cls == "auto-centres-misaligned":
+        return yaw.autocorrelate(make_config(spec), cat("data"), cat("shift"), max_workers=mw)
+    if cls == "cross-centres-misaligned":
+        return yaw.crosscorrelate(make_config(spec), cat("data"), cat("unk"), ref_rand=cat("shift"), max_workers=mw)
+    if cls == "create-mpi-single-worker":
+        return df_create(make_columns(spec, "data"), create_kwargs(spec), workers=1)
+    # ---- group B ----
+    if cls == "create-cache-exists":
+        return df_create(make_columns(spec, "urand"), create_kwargs(spec), cache=caches["urand"], overwrite=False)
+    if cls == "create-overwrite-non-cache":
+        return df_create(make_columns(spec, "data"), create_kwargs(spec), cache=os.path.join(d, "plain"), overwrite=True)
+    if cls == "create-nonfinite-value":
+        cols = make_columns(spec, "data")
+        col = par["col"] if par["col"] in cols else "ra"
+        cols[col][par["idx"] % len(cols[col])] = {"nan": np.nan, "inf": np.inf, "-inf": -np.inf}[par["value"]]
+        return df_create(cols, create_kwargs(spec))
+    if cls == "create-missing-column":
+        cols = make_columns(spec, "data")
+        del cols[par["col"] if par["col"] in cols else "z"]
+        return df_create(cols, create_kwargs(spec))
+    if cls == "create-patch-id-range":
+        spec2 = dict(spec, mode="name")
+        cols = make_columns(spec2, "data")
+        cols["pid"][par["idx"] % len(cols["pid"])] = par["value"]
+        return df_create(cols, create_kwargs(spec2))
+    if cls == "create-input-file-missing":
+        return Catalog.from_file(new, os.path.join(d, "absent." + par["ext"]), ra_name="ra", dec_name="dec",
+                                 patch_num=3, max_workers=mw)
+    if cls == "load-no-patch-info":
+        return Catalog(os.path.join(d, "nocache"), max_workers=mw)
+    if cls == "io-corrfunc-file-missing":
+        return CorrFunc.from_file(os.path.join(d, "absent.hdf"))
+    if cls == "io-hist-files-missing":
+        return HistData.from_files(os.path.join(d, "absent"))
+    # ---- group C ----
+    config = make_config(spec)
+    if cls == "trees-no-redshifts":
+        return cat("noz").build_trees(config.binning.edges, closed=config.binning.closed, max_workers=mw)
+    if cls == "auto-no-redshifts":
+        return yaw.autocorrelate(config, cat("noz"), cat("rand"), max_workers=mw)
+    if cls == "cross-no-redshifts":
+        return yaw.crosscorrelate(config, cat("noz"), cat("unk"), ref_rand=cat("rand"), max_workers=mw)
+    if cls == "hist-no-redshifts":
+        return HistData.from_catalog(cat("noz"), config, max_workers=mw)
+    raise KeyError("unknown refusal class " + cls)
+
+
+def refusal_outcome(cls, spec, env, par, max_workers):
+    """['returned'] | ['raised', type name, message] of the request on the calling rank"""
+    try:
+        refusal_call(cls, spec, env, par, max_workers)
+    except Exception as err:      # the simulator's WorldAbort is a BaseException and passes through
+        return ["raised", type(err).__name__, str(err)[:160]]
+    return ["returned"]
+
+
+FOLLOW_UPS = ("load", "hist", "trees", "create")
+
+
+def stage_follow(follow, spec, env, max_workers, is_root):
+    """a valid collective operation on the regular data catalog; same summaries as stage_create/stage_rest"""
+    if follow == "create":
+        return {"create": stage_create(spec, os.path.join(env["dir"], "follow"), max_workers, "data")}
+    return stage_rest(spec, {"data": env["caches"]["data"]}, os.path.join(env["dir"], "out"), max_workers, is_root,
+                      ops=[follow])
+
+
+def stage_refusal(cls, spec, env, par, max_workers, rank, first, follow):
+    """the refused request, a barrier, then a valid operation - all on every rank of one world.
+    `first` (shared between the rank threads) records how the request ended on each rank, also for
+    ranks that never come back from what follows."""
+    from yaw.utils import parallel
+    first[rank] = refusal_outcome(cls, spec, env, par, max_workers)
+    parallel.COMM.Barrier()
+    return stage_follow(follow, spec, env, max_workers, rank == 0)
